@@ -349,6 +349,7 @@ class C04(Monitor):
     prop = 'C04'
 
     def valid_connect(self, op):
+        """the argument constraints C20 lists for connect() (self unused)"""
         try:
             ka = int(op[3]); ver = op[4]
             rest = op[6:] + ['n', 'n', '0', '0', 'n', 'n'][len(op[6:]):]
@@ -605,6 +606,8 @@ def norm_sub_arg(kind, arg, qos):
                 return [(unhex(arg[2:]).decode('utf-8'), int(qos))]
             if arg.startswith('t:'):
                 a, b = arg[2:].split(',')
+                if not a.startswith('s='):
+                    return None
                 return [(unhex(a[2:]).decode('utf-8'), int(b))]
             if arg.startswith('l:'):
                 out = []
@@ -1274,3 +1277,88 @@ class C18(Monitor):
 
 
 ALL_MONITORS = [C04, C05, C06, C07, C08, C09, C10, C10b, C11, C12, C13, C13b, C14, C15, C15b, C16, C17, C18]
+
+
+# ------------------------------------------------------------------------------------------------
+class C20(Monitor):
+    """invalid arguments are refused atomically with ValueError/TypeError; in-range values are accepted"""
+    prop = 'C20'
+
+    @staticmethod
+    def strlen(tok):
+        return len(unhex(tok[2:])) if tok[:2] in ('s:',) else None
+
+    def verdict(self, op):
+        """'valid' / 'invalid' / None (not judged)"""
+        k = op[0]
+        try:
+            if k == 'setwin':
+                return 'valid' if op[2].lstrip('-').isdigit() and 1 <= int(op[2]) <= 16 else 'invalid'
+            if k == 'settimeout':
+                return 'valid' if op[2].lstrip('-').isdigit() and 1 <= int(op[2]) <= 1024 else 'invalid'
+            if k == 'setbw':
+                def num(x):
+                    n, d = (x.split('/') + ['1'])[:2]
+                    return int(n) / int(d)
+                vals = [num(x) for x in op[2:4]]
+                return 'valid' if all(v > 0 for v in vals) else 'invalid'
+            if k == 'connect':
+                return 'valid' if C04.valid_connect(None, op) else 'invalid'
+            if k == 'publish':
+                if not op[4].lstrip('-').isdigit() or not (0 <= int(op[4]) <= 2):
+                    return 'invalid'
+                if op[3][:2] not in ('s:', 'b:'):
+                    return 'invalid'
+                if not op[2].startswith('s:') or len(unhex(op[2][2:])) > 65535:
+                    return 'invalid'
+                return 'valid'
+            if k in ('subscribe', 'unsubscribe'):
+                topics = norm_sub_arg(k, op[2], op[3] if len(op) > 3 else '0')
+                if topics is None:
+                    return 'invalid'
+                if not topics:
+                    return None       # an empty list is neither listed as valid nor as invalid
+                for t in topics:
+                    name = t[0] if k == 'subscribe' else t
+                    if len(name.encode('utf-8')) > 65535:
+                        return 'invalid'
+                    if k == 'subscribe' and not (0 <= t[1] <= 2):
+                        return 'invalid'
+                return 'valid'
+        except Exception:
+            return 'invalid'
+        return None
+
+    def check(self, st):
+        bk, op = self.bk, st.op
+        k = op[0]
+        if k not in ('setwin', 'settimeout', 'setbw', 'connect', 'publish', 'subscribe', 'unsubscribe'):
+            return
+        pr = bk.proto(st.p)
+        if pr is None:
+            return
+        if k in API_ALLOWED and (st.pre_state is None or not API_ALLOWED[k](bk.profile, st.pre_state)):
+            return      # refused for its state/profile: C14's business
+        v = self.verdict(op)
+        if v is None:
+            return
+        r = ret_of(st)
+        if v == 'invalid':
+            good = r is not None and ((r['k'] == 'raised' and r['err'] in ('ValueError', 'TypeError')) or
+                                      (r['k'] == 'ret' and r.get('how') == 'fail' and r.get('err') in ('ValueError', 'TypeError')))
+            if k in ('subscribe', 'unsubscribe') and r is not None and r.get('err') == 'MQTTWindowError':
+                good = True       # the window is checked before the arguments
+            others = [e for e in st.ev if e is not r]
+            if not good:
+                self.flag('not-rejected', 'invalid %s was not rejected with ValueError/TypeError: %s' % (st.opline[:60], r), st)
+            elif others or st.timers != st.pre_timers or st.states != st.pre_states:
+                self.flag('not-atomic', 'rejected %s had effects: %s' % (st.opline[:60], [e['k'] for e in others]), st)
+        else:
+            acc = r is not None and r['k'] == 'ret' and r.get('how') in ('pending', 'ok', 'none')
+            if k in ('subscribe', 'unsubscribe') and r is not None and r.get('err') == 'MQTTWindowError':
+                acc = True
+            if not acc:
+                self.flag('valid-refused', 'valid %s was refused: %s' % (st.opline[:60], r), st)
+
+
+ALL_MONITORS.append(C20)
